@@ -306,7 +306,9 @@ def run_case(lab, mon, case, rng, messages, noisy, sample=False):
                 if outcomes_.get(text_) in ("fail", "error"):
                     bad_calls.setdefault(sn_, text_)
             for s_ in f.walk_scenarios():
-                if s_.name in bad_calls and sum(1 for x in f.walk_scenarios() if x.name == s_.name) == 1:
+                # (the call log knows scenarios by title: only titles that occur once in the whole run are judged -- a row-name schema
+                #  may give rows of different features the same title)
+                if s_.name in bad_calls and sum(1 for ff in obs.features for x in ff.walk_scenarios() if x.name == s_.name) == 1:
                     hit = [c for c in cases if norm((c["attrs"].get("name"), None)) == norm((s_.name, None))]
                     if len(hit) == 1:
                         c = hit[0]
